@@ -464,32 +464,45 @@ pub fn strategy() -> BoxedStrategy<Case> {
         .boxed()
 }
 
+const BIG_GEOMETRIES: [(u64, u64); 16] = [(1024, 256), (1428, 200), (512, 500), (8192, 40), (65464, 5), (4096, 100), (1024, 1000), (512, 65535), (8, 2000), (8, 65535), (16, 1025), (8, 1100), (32, 4096), (65464, 70), (32768, 140), (65464, 600)];
+
+fn big_case(single: bool, blk: u64, ws: u64, extra: usize, seed: u64) -> Case {
+    let blocks_in_buf = (212_992 / blk) as usize;
+    let blocks = if blk >= 32768 {
+        // a window of more than 4 MiB (more than 32 MiB for 65464 x 600)
+        ws as usize + 2
+    } else if blk <= 32 {
+        // tiny blocks: more than 1024 and more than 2048 blocks in one window
+        (1030 + extra * 1100).min(ws as usize + 2 + extra)
+    } else {
+        // more full blocks than fit into 212992 bytes, at most ~1.5 MB per burst
+        (blocks_in_buf + 3 + extra * 7).min(ws as usize + 2 + extra)
+    };
+    Case {
+        single,
+        write: false,
+        file_len: blocks * blk as usize + 17,
+        opts: vec![("blksize".into(), blk.to_string()), ("windowsize".into(), ws.to_string())],
+        timing: false,
+        seed,
+        big_burst: true,
+    }
+}
+
 /// downloads whose window is larger than the default UDP socket buffer (212992 bytes)
 pub fn big_strategy() -> BoxedStrategy<Case> {
-    (any::<bool>(), prop::sample::select(vec![(1024u64, 256u64), (1428, 200), (512, 500), (8192, 40), (65464, 5), (4096, 100), (1024, 1000), (512, 65535), (8, 2000), (8, 65535), (16, 1025), (8, 1100), (32, 4096), (65464, 70), (32768, 140), (65464, 600)]), 0usize..3, any::<u64>())
-        .prop_map(|(single, (blk, ws), extra, seed)| {
-            // more full blocks than fit into 212992 bytes, at most ~1.5 MB per burst
-            let blocks_in_buf = (212_992 / blk) as usize;
-            let blocks = if blk >= 32768 {
-                // a window of more than 4 MiB
-                ws as usize + 2
-            } else if blk <= 32 {
-                // tiny blocks: more than 1024 and more than 2048 blocks in one window
-                (1030 + extra * 1100).min(ws as usize + 2 + extra)
-            } else {
-                (blocks_in_buf + 3 + extra * 7).min(ws as usize + 2 + extra)
-            };
-            Case {
-                single,
-                write: false,
-                file_len: blocks * blk as usize + 17,
-                opts: vec![("blksize".into(), blk.to_string()), ("windowsize".into(), ws.to_string())],
-                timing: false,
-                seed,
-                big_burst: true,
-            }
-        })
-        .boxed()
+    (any::<bool>(), prop::sample::select(BIG_GEOMETRIES.to_vec()), 0usize..3, any::<u64>()).prop_map(|(single, (blk, ws), extra, seed)| big_case(single, blk, ws, extra, seed)).boxed()
+}
+
+/// every big geometry once per port mode (deterministic)
+pub fn big_grid() -> Vec<Case> {
+    let mut out = vec![];
+    for (i, (blk, ws)) in BIG_GEOMETRIES.iter().enumerate() {
+        for single in [false, true] {
+            out.push(big_case(single, *blk, *ws, i % 3, 900 + i as u64));
+        }
+    }
+    out
 }
 
 /// every subset and every order of the four options (65 ordered selections) x name case x RRQ/WRQ x port mode, valid values
@@ -539,7 +552,9 @@ pub fn run(ctx: &Ctx) {
     let orders = exhaustive_orders();
     enumerate(ctx, "exh-subsets-and-orders", &orders, true, |c, o| dirs.with(|d| judge(d, c, o)));
     explore_n(ctx, "random", ctx.tier.pick(4_000, 150_000), shards(), 24, strategy, |c: &Case, o| dirs.with(|d| judge(d, c, o)));
-    explore_n(ctx, "big-window-download", ctx.tier.pick(48, 1_500), shards(), 12, big_strategy, |c: &Case, o| dirs.with(|d| judge(d, c, o)));
+    let grid = big_grid();
+    enumerate(ctx, "big-window-grid", &grid, false, |c, o| dirs.with(|d| judge(d, c, o)));
+    explore_n(ctx, "big-window-download", ctx.tier.pick(16, 1_500), shards(), 12, big_strategy, |c: &Case, o| dirs.with(|d| judge(d, c, o)));
 }
 
 pub fn replay(ctx: &Ctx, part: &str, case: &Value) -> bool {
